@@ -1,17 +1,17 @@
 #[cfg(feature = "iggy_verif")]
 use iggy::verif::tokio;
+use super::log_writer::write_all_vectored;
 use crate::streaming::batching::message_batch::{RetainedMessageBatch, RETAINED_BATCH_HEADER_LEN};
 use flume::{unbounded, Receiver};
 use iggy::{error::IggyError, utils::duration::IggyDuration};
 use std::{
-    io::IoSlice,
     sync::{
         atomic::{AtomicU64, Ordering},
         Arc,
     },
     time::Duration,
 };
-use tokio::{fs::File, io::AsyncWriteExt, select, time::sleep};
+use tokio::{fs::File, select, time::sleep};
 use tracing::{error, trace, warn};
 
 #[derive(Debug)]
@@ -223,12 +223,11 @@ impl PersisterTask {
     ) -> Result<u64, IggyError> {
         let header = batch_to_write.header_as_bytes();
         let batch_bytes = batch_to_write.bytes;
-        let slices = [IoSlice::new(&header), IoSlice::new(&batch_bytes)];
         let bytes_written = RETAINED_BATCH_HEADER_LEN + batch_bytes.len() as u64;
 
         let mut attempts = 0;
         loop {
-            match file.write_vectored(&slices).await {
+            match write_all_vectored(file, &header, &batch_bytes).await {
                 Ok(_) => {
                     if fsync {
                         match file.sync_all().await {
